@@ -338,12 +338,7 @@ func checkC11(r *Result) []Violation {
 }
 
 func init() {
-	register(&propDef{ID: "C11", Gen: genC11, Check: checkC11, Foreign: func(r *Result) string {
-		if len(r.Crashes) > 0 {
-			return "crash(C13)"
-		}
-		return ""
-	},
+	register(&propDef{ID: "C11", Gen: genC11, Check: withCrashRule("C11", checkC11),
 		Interesting: func(r *Result) bool {
 			// two connections contended for one key
 			for _, e := range r.Hist {
